@@ -652,6 +652,7 @@ pub fn main(args: &[String]) {
         sim.keep_trace = true;
         sim.quiet = true;
         sim.extra_steps = flags.no_panic;
+        sim.force_sim_snap = true;
         sim.mon = Some(Box::new(MonitorSet::new(flags, &inject, &ignore, strict)));
         let scen = flags.prevote && ((prop == "prevote" && k % 2 == 1) || (prop != "prevote" && k % 5 == 4));
         if scen {
